@@ -49,6 +49,8 @@ CONSTS = [0, 7, -3, 2.5, 1e300, -1e-300, 123456789012345678, True, False, DT(202
 ODD_REFS = ['AAAA1', '$AAAA$1', 'AAAA1:AAAA2', 'A1:AAAA1', 'AAAA:AAAA', 'A:AAAA', 'A0', 'A1:A0', 'XFE1', 'A1048577', "'D'!AAAA1",
             'Nope!A1', "'No pe'!A1:B2", 'ZZZ1', 'a1', 'A1:a2', '$A$0',
             # areas where a position may expect one value, several areas, areas joined with &
+            # the title of an existing sheet in another letter case
+            'd!A1', "'d'!A1:A2", 'd!A:A',
             'A1:A2', 'A:A', 'A1:B2', 'A1:A2,B1:B2', 'A1:A2&B1:B2', 'A1:A2&B1:B2&A1:A2', '(A1:A2)', 'A1:A2&"x"', 'D!A:B']
 REF_POSITIONS = ['={r}', '=SUM({r})', '=COLUMN({r})', '=INDEX({r},1)', '=INDEX({r},1,1)', '=INDEX(A1:A2,{r})', '=MATCH(1,{r},0)',
                  '=MATCH({r},A1:A3,0)', '=XMATCH(1,{r})', '=VLOOKUP(1,{r},1,0)', '=VLOOKUP({r},A1:B3,2,0)', '=SUMIF({r},1)',
